@@ -151,6 +151,116 @@ pub fn check_op(op: &DiffOp) -> Result<u64, String> {
     Ok(fp.0)
 }
 
+/// A legal, virtual `Index<usize>`: item i is TABLE[(i + salt) & 255]; no memory behind it, so
+/// ops may span billions of items.
+pub struct Virt {
+    table: Vec<u32>,
+    salt: usize,
+}
+impl Virt {
+    pub fn new(salt: usize) -> Virt {
+        Virt {
+            table: (0..256u32).map(|i| i * 7 + salt as u32 * 10_000).collect(),
+            salt,
+        }
+    }
+    pub fn at(&self, i: usize) -> u32 {
+        self.table[(i.wrapping_add(self.salt)) & 255]
+    }
+}
+impl std::ops::Index<usize> for Virt {
+    type Output = u32;
+    fn index(&self, i: usize) -> &u32 {
+        &self.table[(i.wrapping_add(self.salt)) & 255]
+    }
+}
+
+/// item-wise expansion of an op with huge lengths / indices over virtual sequences.
+/// `full`: verify every change; otherwise verify the first and last 4096 and count the rest.
+pub fn check_huge(op: &DiffOp, full: bool) -> Result<u64, String> {
+    let old = Virt::new(1);
+    let new = Virt::new(2);
+    let (tag, or, nr) = op.as_tag_tuple();
+    let (n_old, n_new) = match tag {
+        similar::DiffTag::Equal => (or.len(), 0),
+        similar::DiffTag::Delete => (or.len(), 0),
+        similar::DiffTag::Insert => (0, nr.len()),
+        similar::DiffTag::Replace => (or.len(), nr.len()),
+    };
+    let total = n_old as u64 + n_new as u64;
+    let r = subject(|| -> Result<u64, String> {
+        let mut count: u64 = 0;
+        for ch in op.iter_changes(&old, &new) {
+            let k = count;
+            count += 1;
+            if count > total {
+                return Err(format!("more than {} changes", total));
+            }
+            if full || k < 4096 || k + 4096 >= total {
+                let (want_tag, oi, ni, val) = if (k as usize) < n_old {
+                    let i = or.start + k as usize;
+                    match tag {
+                        similar::DiffTag::Equal => (ChangeTag::Equal, Some(i), Some(nr.start + k as usize), old.at(i)),
+                        _ => (ChangeTag::Delete, Some(i), None, old.at(i)),
+                    }
+                } else {
+                    let j = nr.start + (k as usize - n_old);
+                    (ChangeTag::Insert, None, Some(j), new.at(j))
+                };
+                if ch.tag() != want_tag || ch.old_index() != oi || ch.new_index() != ni || ch.value() != val {
+                    return Err(format!(
+                        "change #{} is ({:?}, {:?}, {:?}, {}), expected ({:?}, {:?}, {:?}, {})",
+                        k,
+                        ch.tag(),
+                        ch.old_index(),
+                        ch.new_index(),
+                        ch.value(),
+                        want_tag,
+                        oi,
+                        ni,
+                        val
+                    ));
+                }
+            }
+        }
+        Ok(count)
+    })
+    .map_err(|p| format!("{:?}: iter_changes: panic: {}", op, p))?
+    .map_err(|e| format!("{:?} over virtual sequences: {}", op, e))?;
+    if r != total {
+        return Err(format!(
+            "{:?} over virtual sequences: item-wise expansion yields {} changes, the op consumes {} items",
+            op, r, total
+        ));
+    }
+    Ok(total as u64)
+}
+
+pub fn huge_ops(tier: Tier) -> Vec<(DiffOp, bool)> {
+    let mut v = vec![];
+    // widths a cursor could be truncated to: u8, u16 (fully verified), u32 (counted)
+    for &l in &[255usize, 256, 257, 65_535, 65_536, 65_537] {
+        for &base in &[0usize, 5, (1usize << 32) + 7, (1usize << 40) + 1] {
+            v.push((DiffOp::Delete { old_index: base, old_len: l, new_index: base / 2 }, true));
+            v.push((DiffOp::Insert { old_index: base / 3, new_index: base, new_len: l }, true));
+            v.push((DiffOp::Replace { old_index: base, old_len: l, new_index: base + 3, new_len: 2 }, true));
+            v.push((DiffOp::Replace { old_index: base, old_len: 2, new_index: base + 3, new_len: l }, true));
+            v.push((DiffOp::Equal { old_index: base, new_index: base, len: l }, true));
+        }
+    }
+    // one op beyond 2^32 items in the quick tier (about 10 s of iteration), more in thorough
+    let big = (1usize << 32) + 1;
+    v.push((DiffOp::Replace { old_index: 1, old_len: big, new_index: 2, new_len: 2 }, false));
+    if tier == Tier::Thorough {
+        v.push((DiffOp::Delete { old_index: 3, old_len: big, new_index: 0 }, false));
+        v.push((DiffOp::Insert { old_index: 0, new_index: 9, new_len: big }, false));
+        v.push((DiffOp::Equal { old_index: 0, new_index: 9, len: big }, false));
+        v.push((DiffOp::Replace { old_index: 1, old_len: 2, new_index: 2, new_len: big }, false));
+        v.push((DiffOp::Delete { old_index: 3, old_len: 1usize << 33, new_index: 0 }, false));
+    }
+    v
+}
+
 pub fn all_ops(max_idx: usize, max_len: usize) -> Vec<DiffOp> {
     let mut v = vec![];
     for o in 0..=max_idx {
@@ -289,6 +399,22 @@ pub fn run(cfg: &RunCfg) -> CheckReport {
     if rep.has_violation() {
         return rep;
     }
+    // ops with huge lengths / indices over virtual (memory-less) Index implementations
+    let huge = huge_ops(cfg.tier);
+    let ex = explore(cfg, huge.len(), |shard, acc| {
+        let (op, full) = &huge[shard];
+        match check_huge(op, *full) {
+            Ok(n) => {
+                acc.sample(json!({"op": op_json(op), "every_change_verified": full}));
+                acc.ok(true, n, n ^ shard as u64);
+            }
+            Err(e) => acc.violation(|| (json!({"huge_op": op_json(op), "full": full}), e)),
+        }
+    });
+    rep.part("huge-ops", json!({"ops": huge.len(), "lengths": "255..=257, 65535..=65537 (every change verified); 2^32+1 (first/last 4096 verified, rest counted)", "bases": "0, 5, 2^32+7, 2^40+1", "note": "enumerated family over a virtual Index<usize>"}), ex);
+    if rep.has_violation() {
+        return rep;
+    }
     let space = PairSpace::new(vec![
         cfg.tier.pick(Scope::P { k: 3, n: 5 }, Scope::P { k: 3, n: 7 }),
         cfg.tier.pick(Scope::P { k: 2, n: 8 }, Scope::P { k: 2, n: 10 }),
@@ -317,6 +443,11 @@ pub fn run(cfg: &RunCfg) -> CheckReport {
 }
 
 pub fn replay(case: &Value) -> Result<String, String> {
+    if let Some(op) = case.get("huge_op") {
+        let op = op_from_json(op)?;
+        let full = case.get("full").and_then(|x| x.as_bool()).unwrap_or(false);
+        return check_huge(&op, full).map(|n| format!("holds; {} changes", n));
+    }
     if let Some(op) = case.get("op") {
         let op = op_from_json(op)?;
         return check_op(&op).map(|f| format!("holds; fingerprint {:x}", f));
